@@ -38,7 +38,7 @@ REAL_THEOREMS = [
     "c20_k1_n2_indicator", "c20_k1_n2_indicator_swapped",
     "c20_k1_indicator_integral", "c20_k1_indicator_is_indicator",
     "c20_ares_key_order", "c20_gumbel_key_order",
-    "c20_k1_returns_winner", "c20_k1_returned_is_winner",
+    "c20_k1_returns_winner", "c20_k1_returned_is_winner", "c20_k1_exactly_one_winner",
     "c20_k2_probability", "c20_k2_indicator_integral", "c20_k2_indicator_is_indicator",
     "c20_k2_marginal", "c20_k2_returns_top_pair",
 ]
